@@ -39,17 +39,21 @@ class Domain(Exception):
     pass
 
 
-def unary(a, f0, f1, f2, P):
+def unary(a, f0, f1, f2, P, s1=0, s2=0, s0=0):
+    """s1, s2: absolute scale of the ingredients of the textbook formula of f' and f'' (1 - tanh^2 is
+    computed from quantities of size 1, whatever its own size)"""
     n = len(a.g)
+    f1 = P(f1) + (P(mpf(1)) - 1) * s1
+    f2 = P(f2) + (P(mpf(1)) - 1) * s2
     g = [P(f1 * a.g[i]) for i in range(n)]
-    h = [[P(f2 * a.g[i] * a.g[j] + f1 * a.h[i][j]) for j in range(n)] for i in range(n)]
-    return Jet(P(f0), g, h, a.deps)
+    h = [[P(P(f2 * a.g[i] * a.g[j]) + P(f1 * a.h[i][j])) for j in range(n)] for i in range(n)]
+    return Jet(P(f0) + (P(mpf(1)) - 1) * s0, g, h, a.deps)
 
 
 def binary(a, b, f0, fa, fb, faa, fab, fbb, P):
     n = len(a.g)
-    g = [P(fa * a.g[i] + fb * b.g[i]) for i in range(n)]
-    h = [[P(faa * a.g[i] * a.g[j] + fab * (a.g[i] * b.g[j] + b.g[i] * a.g[j]) + fbb * b.g[i] * b.g[j] + fa * a.h[i][j] + fb * b.h[i][j])
+    g = [P(P(fa * a.g[i]) + P(fb * b.g[i])) for i in range(n)]
+    h = [[P(P(P(faa * a.g[i] * a.g[j]) + P(fab * P(P(a.g[i] * b.g[j]) + P(b.g[i] * a.g[j]))) + P(fbb * b.g[i] * b.g[j])) + P(P(fa * a.h[i][j]) + P(fb * b.h[i][j])))
           for j in range(n)] for i in range(n)]
     return Jet(P(f0), g, h, a.deps | b.deps)
 
@@ -92,10 +96,10 @@ def op_unary(name, a, P):
         return unary(a, mp.log1p(x), 1 / (1 + x), -1 / ((1 + x) ** 2), P)
     if name == "Log1pExp":
         s = sigmoid(x)
-        return unary(a, mp.log1p(mp.exp(x)) if x < 50 else x + mp.log1p(mp.exp(-x)), s, s * (1 - s), P)
+        return unary(a, mp.log1p(mp.exp(x)) if x < 50 else x + mp.log1p(mp.exp(-x)), s, s * (1 - s), P, 0, s)
     if name in ("Logistic", "Sigmoid"):
         s = sigmoid(x)
-        return unary(a, s, s * (1 - s), s * (1 - s) * (1 - 2 * s), P)
+        return unary(a, s, s * (1 - s), s * (1 - s) * (1 - 2 * s), P, s, s)
     if name == "Sqrt":
         if x <= 0:
             raise Domain()
@@ -116,7 +120,7 @@ def op_unary(name, a, P):
         return unary(a, mp.cosh(x), mp.sinh(x), mp.cosh(x), P)
     if name == "Tanh":
         t = mp.tanh(x)
-        return unary(a, t, 1 - t * t, -2 * t * (1 - t * t), P)
+        return unary(a, t, 1 - t * t, -2 * t * (1 - t * t), P, 1, 2)
     if name == "Erf":
         d = 2 / mp.sqrt(mp.pi) * mp.exp(-x * x)
         return unary(a, mp.erf(x), d, -2 * x * d, P)
@@ -126,7 +130,7 @@ def op_unary(name, a, P):
     if name == "LogErfc":
         e = mp.erfc(x)
         q = -2 / mp.sqrt(mp.pi) * mp.exp(-x * x) / e
-        return unary(a, mp.log(e), q, -2 * x * q - q * q, P)
+        return unary(a, mp.log(e) if abs(x) > 1 else mp.log1p(-mp.erf(x)), q, -2 * x * q - q * q, P, 0, abs(2 * x * q) + q * q)
     if name == "Gamma":
         if x <= 0 and x == mp.floor(x):
             raise Domain()
@@ -138,7 +142,40 @@ def op_unary(name, a, P):
     if name == "Lgamma":
         if x <= 0:
             raise Domain()
-        return unary(a, mp.loggamma(x), mp.digamma(x), mp.polygamma(1, x), P)
+        # math.Lgamma of the Go library is accurate to a few 1e-15 absolute near its zeros at 1 and 2
+        return unary(a, mp.loggamma(x), mp.digamma(x), mp.polygamma(1, x), P, 0, 0, 1)
+    raise KeyError(name)
+
+
+def op_param(name, a, p, P):
+    """operations with a plain numeric parameter"""
+    x = a.v
+    if name == "Mlgamma":
+        k = int(p)
+        if x <= mpf(k - 1) / 2 or x > 60:
+            raise Domain()
+        args = [x + mpf(1 - j) / 2 for j in range(1, k + 1)]
+        terms = [mp.loggamma(t) for t in args]
+        c = mpf(k * (k - 1)) / 4 * mp.log(mp.pi)
+        return unary(a, c + sum(terms), sum(mp.digamma(t) for t in args), sum(mp.polygamma(1, t) for t in args), P,
+                     sum(abs(mp.digamma(t)) for t in args), 0, k + abs(c) + sum(abs(t) for t in terms))
+    if name == "GammaP":
+        if x <= 0 or x > 60:
+            raise Domain()
+        f1 = mp.exp((p - 1) * mp.log(x) - x - mp.loggamma(p))
+        return unary(a, mp.gammainc(p, 0, x, regularized=True), f1, f1 * ((p - 1) / x - 1), P, 0, f1 * (abs(p - 1) / x + 1))
+    if name in ("BesselI", "LogBesselI"):
+        if x <= mpf(1) / 16 or x > 30:
+            raise Domain()
+        i0 = mp.besseli(p, x)
+        i1 = mp.besseli(p, x, derivative=1)
+        i2 = mp.besseli(p, x, derivative=2)
+        if name == "BesselI":
+            return unary(a, i0, i1, i2, P, abs(mp.besseli(p - 1, x)) + abs(p / x * i0), i2)
+        l0 = mp.log(i0)
+        r1 = i1 / i0
+        amp = 1 + abs(l0)
+        return unary(a, l0, r1, i2 / i0 - r1 * r1, P, (abs(mp.besseli(p - 1, x) / i0) + abs(p / x)) * amp, (abs(i2 / i0) + r1 * r1) * amp)
     raise KeyError(name)
 
 
@@ -162,7 +199,8 @@ def op_binary(name, a, b, P):
         lx = mp.log(x)
         return binary(a, b, p, y * p / x, p * lx, y * (y - 1) * p / (x * x), p / x * (1 + y * lx), p * lx * lx, P)
     if name in ("Min", "Max"):
-        if x == y:
+        # a tie within rounding: either operand is a correct answer, their derivatives differ
+        if abs(x - y) <= mpf(2) ** -40 * max(abs(x), abs(y)):
             raise Domain()
         first = (x < y) if name == "Min" else (x > y)
         return Jet(a.v, list(a.g), [list(r) for r in a.h], a.deps) if first else Jet(b.v, list(b.g), [list(r) for r in b.h], b.deps)
@@ -201,10 +239,20 @@ def op_vector(name, vec, vec2, alpha, n, P):
     if name == "Mtrace":
         k = int(round(math.sqrt(len(vec))))
         return add_many([vec[i * k + i] for i in range(k)], n, P)
-    if name in ("SmoothMax", "LogSmoothMax"):
-        al = const(alpha, n)
-        if name == "LogSmoothMax" and any(a.v <= 0 for a in vec):
+    if name == "LogSmoothMax":
+        # defined in the log domain: exp( log sum x_i e^(alpha x_i) - log sum e^(alpha x_i) )
+        if any(a.v <= 0 for a in vec):
             raise Domain()
+        al = const(alpha, n)
+        num = den = None
+        for a in vec:
+            t0 = op_binary("Mul", a, al, P)
+            den = t0 if den is None else op_binary("LogAdd", den, t0, P)
+            t1 = op_binary("Add", t0, op_unary("Log", a, P), P)
+            num = t1 if num is None else op_binary("LogAdd", num, t1, P)
+        return op_unary("Exp", op_binary("Sub", num, den, P), P)
+    if name == "SmoothMax":
+        al = const(alpha, n)
         ws = [op_unary("Exp", op_binary("Mul", al, a, P), P) for a in vec]
         num = add_many([op_binary("Mul", w, a, P) for w, a in zip(ws, vec)], n, P)
         den = add_many(ws, n, P)
@@ -215,6 +263,9 @@ def op_vector(name, vec, vec2, alpha, n, P):
 UNARY = ["Set", "Neg", "Abs", "Exp", "Log", "Log1p", "Log1pExp", "Logistic", "Sigmoid", "Sqrt", "Sin", "Cos", "Tan", "Sinh", "Cosh", "Tanh",
          "Erf", "Erfc", "LogErfc", "Gamma", "Lgamma"]
 BINARY = ["Add", "Sub", "Mul", "Div", "Pow", "Min", "Max", "LogAdd", "LogSub"]
+PARAM = {"Mlgamma": [1.0, 2.0, 3.0], "GammaP": [0.5, 1.0, 2.5, 7.0], "BesselI": [0.0, 0.5, 1.0, 2.5, 3.0], "LogBesselI": [0.0, 0.5, 1.0, 2.5, 3.0]}
+# operations that also exist as statically typed variants (ADD, MUL, ...)
+CONCRETE = {"Abs", "Neg", "Add", "Sub", "Mul", "Div", "LogAdd", "LogSub", "Pow", "Sqrt", "Exp", "Log", "Log1p"}
 VECTOR = ["VdotV", "Vnorm", "Vmean", "Mtrace", "SmoothMax", "LogSmoothMax"]
 
 
@@ -223,29 +274,45 @@ def evaluate(case, P, dps):
     with mp.workdps(dps):
         n = len(case["vars"])
         regs = [var(mpf(unhex(v)), i, n) for i, v in enumerate(case["vars"])]
+        # single precision under- and overflows much earlier (squares of 1e-20 are lost)
+        low, high = (mpf(10) ** -30, mpf(10) ** 8) if case["type"] == "Real64" else (mpf(10) ** -8, mpf(10) ** 6)
+        if any(r.v != 0 and abs(r.v) < low for r in regs):
+            raise Domain(0)
 
         def operand(kind, reg, val):
             if kind in ("const", "plain"):
                 return const(mpf(unhex(val)), n)
             return regs[reg]
-        for ins in case["prog"]:
-            op = ins["op"]
-            if op in UNARY:
-                r = op_unary(op, operand(ins["ka"], ins["a"], ins.get("va")), P)
-            elif op in BINARY:
-                r = op_binary(op, operand(ins["ka"], ins["a"], ins.get("va")), operand(ins["kb"], ins["b"], ins.get("vb")), P)
-            else:
-                r = op_vector(op, [regs[i] for i in ins["vec"]], [regs[i] for i in ins.get("vec2") or []],
-                              mpf(unhex(ins["vb"])) if ins.get("vb") else None, n, P)
-            real(r.v)
-            for x in r.g:
-                real(x)
-            for row in r.h:
-                for x in row:
+        for at, ins in enumerate(case["prog"]):
+            try:
+                op = ins["op"]
+                if op in PARAM:
+                    r = op_param(op, operand(ins["ka"], ins["a"], ins.get("va")), mpf(unhex(ins["vb"])), P)
+                elif op in UNARY:
+                    r = op_unary(op, operand(ins["ka"], ins["a"], ins.get("va")), P)
+                elif op in BINARY:
+                    r = op_binary(op, operand(ins["ka"], ins["a"], ins.get("va")), operand(ins["kb"], ins["b"], ins.get("vb")), P)
+                else:
+                    r = op_vector(op, [regs[i] for i in ins["vec"]], [regs[i] for i in ins.get("vec2") or []],
+                                  mpf(unhex(ins["vb"])) if ins.get("vb") else None, n, P)
+                # the moderate regime: intermediate values a float evaluation neither over- nor underflows
+                # on (squares and reciprocals included)
+                if abs(real(r.v)) > high or (r.v != 0 and abs(r.v) < low):
+                    raise Domain()
+                if any(x != 0 and abs(x) < low ** 2 for x in r.g) or any(abs(x) > high ** 2 for x in r.g):
+                    raise Domain()
+                if any(abs(x) > high ** 4 for row in r.h for x in row):
+                    raise Domain()
+                for x in r.g:
                     real(x)
-            while ins["dst"] >= len(regs):
-                regs.append(None)
-            regs[ins["dst"]] = r
+                for row in r.h:
+                    for x in row:
+                        real(x)
+                while ins["dst"] >= len(regs):
+                    regs.append(None)
+                regs[ins["dst"]] = r
+            except Domain:
+                raise Domain(at)
         return regs[case["prog"][-1]["dst"]]
 
 
@@ -264,7 +331,7 @@ def perturber(rng, bits):
 # ---------------------------------------------------------------------------------------------
 # program generator
 
-special_points = [0.0, 1.0, -1.0, 0.5, 2.0, -18.0, 18.0, 33.3, 33.4, -37.0, 40.0, 1e-8, -1e-8, 36.0, 709.0]
+special_points = [0.0, 1.0, -1.0, 0.5, 2.0, -18.0, 18.0, 33.3, 33.4, -37.0, 40.0, 36.0, -40.0]
 
 
 @st.composite
@@ -280,7 +347,7 @@ def programs(draw):
     prog = []
     steps = draw(st.integers(1, 7))
     for _ in range(steps):
-        family = draw(st.sampled_from(["u", "u", "b", "b", "b", "v"]))
+        family = draw(st.sampled_from(["u", "u", "u", "b", "b", "b", "b", "v", "v", "p"]))
         # the receiver: a fresh register or an existing intermediate (temporaries are reused, the
         # receiver may be one of the operands)
         if nreg > n and draw(st.integers(0, 3)) == 0:
@@ -296,12 +363,22 @@ def programs(draw):
         if family == "u":
             op = draw(st.sampled_from(UNARY))
             ka, a, va = operand(False)
-            prog.append({"op": op, "dst": dst, "a": a, "b": -1, "ka": ka, "va": va})
+            cc = op in CONCRETE and draw(st.booleans())
+            prog.append({"op": op, "dst": dst, "a": a, "b": -1, "ka": ka, "va": va, "cc": cc})
+        elif family == "p":
+            op = draw(st.sampled_from(sorted(PARAM)))
+            ka, a, va = operand(False)
+            prog.append({"op": op, "dst": dst, "a": a, "b": -1, "ka": ka, "va": va, "vb": fhex(draw(st.sampled_from(PARAM[op])))})
         elif family == "b":
             op = draw(st.sampled_from(BINARY))
             ka, a, va = operand()
             kb, b, vb = operand()
-            prog.append({"op": op, "dst": dst, "a": a, "b": b, "ka": ka, "kb": kb, "va": va, "vb": vb})
+            if op in ("LogAdd", "LogSub") and kb != "reg" and draw(st.integers(0, 3)) == 0:
+                vb = fhex(float("-inf"))
+            if op == "LogAdd" and ka != "reg" and kb == "reg" and draw(st.integers(0, 3)) == 0:
+                va = fhex(float("-inf"))
+            cc = op in CONCRETE and ka == "reg" and kb == "reg" and draw(st.booleans())
+            prog.append({"op": op, "dst": dst, "a": a, "b": b, "ka": ka, "kb": kb, "va": va, "vb": vb, "cc": cc})
         else:
             op = draw(st.sampled_from(VECTOR))
             k = draw(st.integers(1, 3))
@@ -315,7 +392,9 @@ def programs(draw):
                 ins["vb"] = fhex(draw(st.sampled_from([1.0, 2.0, 0.5, -1.0, 10.0])))
             prog.append(ins)
         nreg = max(nreg, dst + 1)
-    return {"type": rtype, "order": order, "vars": [fhex(v) for v in vars_], "prog": prog}
+    # the variables may hold derivatives of an earlier computation when they are activated
+    prior = draw(st.integers(0, 3)) == 0
+    return {"type": rtype, "order": order, "vars": [fhex(v) for v in vars_], "prog": prog, "prior": prior}
 
 
 def describe(case):
@@ -326,11 +405,14 @@ def describe(case):
         if "vec" in ins:
             parts.append("r%d=%s(%s%s%s)" % (ins["dst"], ins["op"], ins["vec"], ("," + str(ins["vec2"])) if ins.get("vec2") else "",
                                              (",alpha=%r" % unhex(ins["vb"])) if ins.get("vb") else ""))
+        elif ins["op"] in PARAM:
+            parts.append("r%d=%s(%r,%s)" % (ins["dst"], ins["op"], unhex(ins["vb"]), opnd(ins["ka"], ins["a"], ins.get("va"))))
         elif ins["b"] == -1 and ins.get("kb") is None:
-            parts.append("r%d=%s(%s)" % (ins["dst"], ins["op"], opnd(ins["ka"], ins["a"], ins.get("va"))))
+            parts.append("r%d=%s(%s)" % (ins["dst"], ins["op"].upper() if ins.get("cc") else ins["op"], opnd(ins["ka"], ins["a"], ins.get("va"))))
         else:
-            parts.append("r%d=%s(%s,%s)" % (ins["dst"], ins["op"], opnd(ins["ka"], ins["a"], ins.get("va")), opnd(ins["kb"], ins["b"], ins.get("vb"))))
-    return "%s order %d vars %s: %s" % (case["type"], case["order"], [unhex(v) for v in case["vars"]], "; ".join(parts))
+            parts.append("r%d=%s(%s,%s)" % (ins["dst"], ins["op"].upper() if ins.get("cc") else ins["op"], opnd(ins["ka"], ins["a"], ins.get("va")), opnd(ins["kb"], ins["b"], ins.get("vb"))))
+    return "%s order %d vars %s%s: %s" % (case["type"], case["order"], [unhex(v) for v in case["vars"]],
+                                       " (activated again after an in-place update)" if case.get("prior") else "", "; ".join(parts))
 
 
 def check_program(case, srv, stats):
@@ -338,16 +420,36 @@ def check_program(case, srv, stats):
     n = len(case["vars"])
     bits = 52 if case["type"] == "Real64" else 23
     eps = 2.0 ** -bits
-    ops = sorted(set(i["op"] for i in case["prog"]))
-    classes = ["type=" + case["type"], "order=%d" % case["order"], "n=%d" % n] + ["op=" + o for o in ops]
+    truncated = False
     try:
-        ref = evaluate(case, ident, 60)
+        try:
+            ref = evaluate(case, ident, 60)
+        except Domain as d:
+            # an operation left its domain (or the moderate range): the program up to it is checked
+            at = d.args[0] if d.args else 0
+            if at == 0:
+                stats.case(desc, ["outside the domain of an operation (not evaluated)"], False)
+                return
+            case = dict(case, prog=case["prog"][:at])
+            desc = describe(case)
+            truncated = True
+            ref = evaluate(case, ident, 60)
     except Domain:
         stats.case(desc, ["outside the domain of an operation (not evaluated)"], False)
         return
     except (ZeroDivisionError, OverflowError, ValueError, mpmath.libmp.NoConvergence):
         stats.case(desc, ["reference evaluation failed (not evaluated)"], False)
         return
+    ops = sorted(set(i["op"] for i in case["prog"]))
+    classes = ["type=" + case["type"], "order=%d" % case["order"], "n=%d" % n] + ["op=" + o for o in ops]
+    if case.get("prior"):
+        classes.append("variables activated again after an earlier computation")
+    if truncated:
+        classes.append("program cut before an operation that leaves its domain")
+    if any(i.get("cc") for i in case["prog"]):
+        classes.append("statically typed variant (ADD, MUL, ...)")
+    if any(i.get("vb") == "-Inf" or i.get("va") == "-Inf" for i in case["prog"]):
+        classes.append("LogAdd/LogSub with -Inf")
     # values a float cannot hold: not asserted
     big = mpf(2) ** (900 if bits == 52 else 100)
     allv = [ref.v] + list(ref.g) + [x for row in ref.h for x in row]
@@ -368,7 +470,7 @@ def check_program(case, srv, stats):
     except (Domain, ZeroDivisionError, OverflowError, ValueError):
         stats.case(desc, ["at the boundary of a domain (perturbed evaluation leaves it)"], False)
         return
-    resp = srv.ask({"k": "expr", "type": case["type"], "order": case["order"], "vars": case["vars"], "prog": case["prog"]})
+    resp = srv.ask({"k": "expr", "type": case["type"], "order": case["order"], "vars": case["vars"], "prog": case["prog"], "prior": bool(case.get("prior"))})
     if "panic" in resp or "died" in resp or "err" in resp:
         raise Violation("%s: the library failed: %s" % (desc, resp))
     got_v = unhex(resp["v"])
@@ -427,7 +529,73 @@ def check_sweep(case, srv, stats):
 
 
 ASPECTS = {"expr_derivatives": (programs(), check_sweep)}
-WITNESSES = {}
+def _expr(srv, rtype, order, vars_, prog, prior=False):
+    return srv.ask({"k": "expr", "type": rtype, "order": order, "vars": [fhex(v) for v in vars_], "prog": prog, "prior": prior})
+
+
+def _u(op, a=0, dst=None, **kw):
+    d = {"op": op, "dst": a + 1 if dst is None else dst, "a": a, "b": -1, "ka": "reg"}
+    d.update(kw)
+    return d
+
+
+def _bad(x):
+    return math.isnan(x) or math.isinf(x)
+
+
+def w_setvariable_stale(srv):
+    r = _expr(srv, "Real64", 1, [3.0, 5.0], [_u("Set", 0, 2)], prior=True)
+    g = [unhex(x) for x in r["g"]]
+    return "C01/setvariable-stale-derivatives", g != [1.0, 0.0], "gradient of x0 after activating it again: %r" % g
+
+
+def w_logerfc_large(srv):
+    r = _expr(srv, "Real64", 2, [33.3], [_u("LogErfc")])
+    g, h = unhex(r["g"][0]), unhex(r["h"][0])
+    return "C01/logerfc-derivatives-nan-for-large-x", _bad(g) or abs(g + 66.63000300971957) > 1e-9 or abs(h + 1.9991006279159658) > 1e-6, "LogErfc(33.3): d = %r, d2 = %r" % (g, h)
+
+
+def w_logistic_negative(srv):
+    r = _expr(srv, "Real64", 2, [-800.0], [_u("Logistic")])
+    g, h = unhex(r["g"][0]), unhex(r["h"][0])
+    return "C01/logistic-derivatives-nan-below-minus-709", _bad(g) or _bad(h), "Logistic(-800): d = %r, d2 = %r" % (g, h)
+
+
+def w_scalar_logsub(srv):
+    prog = [{"op": "LogSub", "dst": 1, "a": -1, "b": -1, "ka": "plain", "kb": "plain", "va": fhex(6.103515625e-05), "vb": fhex(-2.4786283771902067e-78)}]
+    r = _expr(srv, "Real64", 1, [1.0], prog)
+    v = unhex(r["v"])
+    return "C01/scalar-logsub-cancellation", _bad(v) or abs(v + 9.704030010105888902743) > 1e-13, "LogSub(6.1e-5, -2.5e-78) = %r" % v
+
+
+def w_logbesseli_d2(srv):
+    r = _expr(srv, "Real64", 2, [1.0], [_u("LogBesselI", vb=fhex(0.5))])
+    h = unhex(r["h"][0])
+    return "C01/logbesseli-second-derivative-nan", _bad(h) or abs(h + 0.22406166096631046641) > 1e-9, "LogBesselI(0.5, 1): d2 = %r" % h
+
+
+def w_mlgamma_small(srv):
+    r = _expr(srv, "Real64", 1, [1.6837223962243098e-06], [_u("Mlgamma", vb=fhex(1.0))])
+    v = unhex(r["v"])
+    return "C01/mlgamma-small-argument", _bad(v) or abs(v - 13.2945025317122251577867592493) > 1e-12, "Mlgamma(1.68e-6, 1) = %r" % v
+
+
+def w_smoothmax_overflow(srv):
+    prog = [{"op": "SmoothMax", "dst": 2, "a": -1, "b": -1, "vec": [0, 1], "vb": fhex(10.0)}]
+    r = _expr(srv, "Real64", 1, [100.0, 3.0], prog)
+    v = unhex(r["v"])
+    return "C01/smoothmax-exponent-overflow", _bad(v) or abs(v - 100.0) > 1e-9, "SmoothMax([100, 3], alpha = 10) = %r" % v
+
+
+WITNESSES = {
+    "setvariable_stale": w_setvariable_stale,
+    "logerfc_large": w_logerfc_large,
+    "logistic_negative": w_logistic_negative,
+    "scalar_logsub": w_scalar_logsub,
+    "logbesseli_d2": w_logbesseli_d2,
+    "mlgamma_small": w_mlgamma_small,
+    "smoothmax_overflow": w_smoothmax_overflow,
+}
 
 if __name__ == "__main__":
     sys.exit(main(ASPECTS, WITNESSES))
